@@ -36,10 +36,10 @@ def leaf(rng, cls):
     if cls == "Linear":
         return {"k": cls, "args": {"weight": np.ones((rng.randint(1, 3), 3), dtype="float32")}}
     if cls == "Conv1d":
-        return {"k": cls, "args": {"input_shape": rng.choice([None, 9]), "weight": np.ones((2, 1, 3), dtype="float32"),
+        return {"k": cls, "args": {"input_shape": rng.choice([None, 9]), "weight": np.ones((2, 2, 3), dtype="float32"),
                                    "stride": 1, "padding": 0, "dilation": 1, "groups": 1, "bias": np.ones(2, dtype="float32")}}
     if cls == "Conv2d":
-        return {"k": cls, "args": {"input_shape": rng.choice([None, (9, 9)]), "weight": np.ones((2, 1, 3, 3), dtype="float32"),
+        return {"k": cls, "args": {"input_shape": rng.choice([None, (9, 9)]), "weight": np.ones((2, 2, 3, 3), dtype="float32"),
                                    "stride": 1, "padding": 1, "dilation": 1, "groups": 1, "bias": np.ones(2, dtype="float32")}}
     if cls in ("SumPool2d", "AvgPool2d"):
         return {"k": cls, "args": {"kernel_size": np.array([2, 2]), "stride": np.array([2, 2]), "padding": np.array([0, 0])}}
@@ -70,6 +70,21 @@ def gen(rng, tier):
             seq[rng.randrange(1, L - 1)] = rng.choice(["Input", "Output"])   # inadmissible: model only
         cases.append({"kind": "seq", "recipes": [V.enc_recipe(leaf(rng, c)) for c in seq],
                       "conv": rng.choice(["varargs", "list", "tuple"])})
+    # an un-annotated convolution directly behind a node whose output type fits it (channels and rank): from_list must still
+    # use the GIVEN conv object, untouched
+    def conv(nd, shape):
+        return {"k": "Conv1d" if nd == 1 else "Conv2d",
+                "args": {"input_shape": shape, "weight": np.ones((2, 2) + (3,) * nd, dtype="float32"), "stride": 1, "padding": 1,
+                         "dilation": 1, "groups": 1, "bias": np.ones(2, dtype="float32")}}
+    def lif(sh):
+        return {"k": "LIF", "args": {p: np.ones(sh, dtype="float32") for p in PARAMS["LIF"]}}
+    for _ in range(12 if tier == "quick" else 120):
+        nd = rng.choice([1, 2])
+        first = rng.choice([conv(nd, 9 if nd == 1 else (9, 9)), lif([2, 7] if nd == 1 else [2, 5, 5])])
+        seq = [first, conv(nd, None)] + [leaf(rng, rng.choice(["Scale", "LIF", "Flatten"])) for _ in range(rng.randint(0, 2))]
+        if rng.random() < 0.4:
+            seq = [leaf(rng, "Input")] + seq
+        cases.append({"kind": "seq", "recipes": [V.enc_recipe(x) for x in seq], "conv": rng.choice(["varargs", "list", "tuple"])})
     cases.append({"kind": "seq", "recipes": [], "conv": "varargs"})
     cases.append({"kind": "seq", "recipes": [], "conv": "list"})
     return cases
